@@ -31,6 +31,9 @@ Inductive cop :=
                                  3 = still waiting when the watchdog stopped it after [watch] ns *)
 | OBudget (budget : Z) (elapsed : N) (zero : bool)   (* remainingReloadRetirementBudget *)
 | OReadyWaitSignal            (* a reload signal arrives while the main loop sits in waitReloadReadyOrSignal *)
+| OReadyWaitArms (mode : ready_deadline) (k : nat)
+                              (* waitReloadReadyOrSignal fed k ignored signals, then readiness; result: how many
+                                 timers it armed (mode: where the source arms its timer, regenerated) *)
 | OEnd.                       (* EndReloadProxyFailureSuppression() alone (adversarial cases) *)
 
 (* return value of a call: 0 = none/false, 1 = true, 2 = channel empty *)
@@ -130,6 +133,7 @@ Definition mstep (T : tables) (m : mstate) (o : cop) : mstate * N :=
   | OWaitDrain maxw n ia ca watch => keep s (drain_wait_result (t_timer_guard T) maxw n ia ca watch)
   | OBudget b e z => keep s (Z.to_N (remaining_budget b e z))
   | OReadyWaitSignal => keep s 0%N     (* waitReloadReadyOrSignal: `continue` — the signal is dropped *)
+  | OReadyWaitArms mode k => keep s (N.of_nat (ready_wait_arms mode k))
   | OEnd => keep (call_prog T s [PEndSupp]) 0%N
   end.
 
@@ -202,6 +206,7 @@ Definition probe_ok (o : cop) (cur : obs) : bool :=
       (* the wait is over when the budget is: it never outlasts max(maxw, 0) *)
       if N.ltb (Z.to_N maxw) watch then negb (N.eqb (o_ret cur) 3) else true
   | OBudget b _ _ => N.leb (o_ret cur) (Z.to_N b)
+  | OReadyWaitArms _ _ => N.eqb (o_ret cur) 1   (* one deadline, fixed before the loop: an ignored signal does not extend it *)
   | _ => true
   end.
 
